@@ -161,11 +161,10 @@ def render(progs, kind):
     return "\n".join(lines) + "\n", ranges
 
 
-def run_unit(work, repo, name, src):
+def run_unit(work, repo, name, src, protocols=None):
     d = os.path.join(work, name)
     os.makedirs(os.path.join(d, "src"), exist_ok=True)
-    feats = " ".join('"%s"' % f for f in ["batteries_included"] + F.PROTOCOLS)
-    toml = "[package]\nname = \"pv_c19_%s\"\nversion = \"0.0.0\"\nedition = \"2021\"\n\n[workspace]\n\n[dependencies]\nrusty_paseto = { path = \"%s\", default-features = false, features = [%s] }\n" % (name, repo, ", ".join('"%s"' % f for f in ["batteries_included"] + F.PROTOCOLS))
+    toml = "[package]\nname = \"pv_c19_%s\"\nversion = \"0.0.0\"\nedition = \"2021\"\n\n[workspace]\n\n[dependencies]\nrusty_paseto = { path = \"%s\", default-features = false, features = [%s] }\n" % (name, repo, ", ".join('"%s"' % f for f in ["batteries_included"] + list(protocols or F.PROTOCOLS)))
     from .c20 import _write_if_changed
     _write_if_changed(os.path.join(d, "Cargo.toml"), toml)
     _write_if_changed(os.path.join(d, "src", "lib.rs"), src)
@@ -174,7 +173,7 @@ def run_unit(work, repo, name, src):
         shutil.copyfile(lock, os.path.join(d, "Cargo.lock"))
     e = dict(os.environ)
     e["CARGO_NET_OFFLINE"] = "true"
-    e["CARGO_TARGET_DIR"] = os.path.join(work, "target")
+    e["CARGO_TARGET_DIR"] = os.path.join(work, "target" if protocols is None else "target_" + "_".join(protocols))
     e.pop("RUSTC_WORKSPACE_WRAPPER", None)
     e.pop("RUSTFLAGS", None)
     r = subprocess.run(["cargo", "check", "--offline", "--lib", "--message-format=json"], cwd=d, env=e, capture_output=True, text=True)
@@ -237,6 +236,30 @@ def matrix(res, tier, repo):
             res.violate("C19.R1", "program " + name, "matching program rejected (%s)" % d["code"], "a program with matching types must compile (%s): %s  |  %s" % (group, " ".join(body)[:240], d["message"]), file="(generated)", line=None)
     if "(outside)" in bad_pos or (rc_p != 0 and not dp):
         res.violate("C19.R1", "(positive unit)", "unit does not compile", "the positive unit failed to compile outside the generated functions: %s" % ((bad_pos.get("(outside)") or [{"message": err_p[-300:]}])[0]["message"]))
+    # the matching programs of each protocol also compile when that protocol is the only one enabled (a conversion or method gated on a
+    # sibling protocol's feature is missing exactly there)
+    from concurrent.futures import ThreadPoolExecutor
+
+    def single(proto):
+        tag = proto[:2].upper() + proto[3:].capitalize()          # v2_public -> V2Public
+        mine = [p for p in poss if p[0].endswith("_" + tag) or ("_%s_" % tag) in p[0]]
+        src1, rng1 = render(mine, "pos")
+        rc1, d1, broken1, err1 = run_unit(work, repo, "pos_" + proto, src1, protocols=[proto])
+        return proto, mine, rng1, rc1, d1, broken1, err1
+    with ThreadPoolExecutor(max_workers=8) as ex:
+        singles = list(ex.map(single, F.PROTOCOLS))
+    for proto, mine, rng1, rc1, d1, broken1, err1 in singles:
+        if not mine:
+            continue
+        ok1 = rc1 == 0 and not d1 and not broken1
+        res.oblige(ok1)
+        if ok1:
+            res.inst("C19.R1", "compiles with %s alone: %d matching programs" % (proto, len(mine)))
+        else:
+            d0 = (d1 or [{"message": broken1 or err1[-300:], "line": None, "code": None}])[0]
+            fn = fn_of(d0.get("line"), rng1) or "(unit)"
+            res.violate("C19.R1", "program %s [features %s]" % (fn, proto), "matching program rejected when only %s is enabled (%s)" % (proto, d0.get("code")),
+                        "a program with matching types must compile in the configuration that enables just its protocol: %s" % str(d0.get("message"))[:300], file="(generated)")
     # negatives: at least one error with an expected code inside the function
     by_fn = {}
     for d in dn:
